@@ -7,10 +7,12 @@ package conc
 import (
 	"crypto/rand"
 	"encoding/binary"
+	"encoding/hex"
 	"math/big"
 	"strings"
 
 	secp256k1 "github.com/bytemare/secp256k1"
+	"github.com/bytemare/secp256k1/internal/field"
 	"github.com/bytemare/secp256k1/internal/verif/ref"
 )
 
@@ -134,6 +136,46 @@ func IsValueClass(name string) bool {
 	return false
 }
 
+// IsAPICoverage reports whether the operation is one of the "every remaining exported function" operations (name
+// suffix #api): they exist so that mutable global state or a write to a shared argument behind ANY exported function
+// is seen by the footprint, watch and race parts; the scheduler exploration and the race pass pair them only with
+// themselves and with the core partners.
+func IsAPICoverage(name string) bool { return strings.HasSuffix(name, "#api") }
+
+// CorePartner lists the core operations that value-class and API-coverage operations are paired with.
+var CorePartner = map[string]bool{"HashToScalar(M,D[:18])": true, "Element.Subtract(E1)": true, "Element.Multiply(S1)": true,
+	"Scalar.Pow(S2)": true, "E1.Encode()": true, "Scalar.Set(S1).Add(S2)": true}
+
+// PairWanted is the pairing policy of the two-thread scenarios: core x core, value-class x value-class, an
+// API-coverage operation with itself, and value-class / API-coverage operations with the core partners.
+func PairWanted(a, b string) bool {
+	class := func(n string) int {
+		switch {
+		case IsAPICoverage(n):
+			return 2
+		case IsValueClass(n):
+			return 1
+		}
+
+		return 0
+	}
+
+	ca, cb := class(a), class(b)
+
+	switch {
+	case ca == 0 && cb == 0, ca == 1 && cb == 1:
+		return true
+	case ca == 2 && cb == 2:
+		return a == b
+	case ca != 0 && cb == 0:
+		return CorePartner[b]
+	case ca == 0 && cb != 0:
+		return CorePartner[a]
+	}
+
+	return false
+}
+
 func own() *secp256k1.Element { return rawElement(ref.G(), big.NewInt(2)) }
 
 func errByte(err error) byte {
@@ -246,6 +288,91 @@ var Ops = []Op{
 	{"Order()+overwrite-result", func(sh *Shared) []byte { return takeAndOverwrite(secp256k1.Order()) }},
 	{"E1.Encode()+overwrite-result", func(sh *Shared) []byte { return takeAndOverwrite(sh.E1.Encode()) }},
 	{"S1.Encode()+overwrite-result", func(sh *Shared) []byte { return takeAndOverwrite(sh.S1.Encode()) }},
+	// ---- every remaining exported function, once (#api) ------------------------------------------------------
+	{"Element.DecodeHex(hex EB) #api", func(sh *Shared) []byte {
+		e := own()
+		err := e.DecodeHex(hex.EncodeToString(sh.EB))
+
+		return append(e.Encode(), errByte(err))
+	}},
+	{"Element.DecodeCompressed(EB) #api", func(sh *Shared) []byte {
+		e := own()
+		err := e.DecodeCompressed(sh.EB)
+
+		return append(e.Encode(), errByte(err))
+	}},
+	{"Element.DecodeCoordinates(EU) #api", func(sh *Shared) []byte {
+		e := own()
+		err := e.DecodeCoordinates([32]byte(sh.EU[1:33]), [32]byte(sh.EU[33:65]))
+
+		return append(e.Encode(), errByte(err))
+	}},
+	{"Element.UnmarshalBinary(EU) #api", func(sh *Shared) []byte {
+		e := own()
+		err := e.UnmarshalBinary(sh.EU)
+
+		return append(e.Encode(), errByte(err))
+	}},
+	{"E1.Hex/MarshalBinary/XCoordinate/IsIdentity #api", func(sh *Shared) []byte {
+		b, _ := sh.E1.MarshalBinary()
+		out := append([]byte(sh.E1.Hex()), b...)
+		out = append(out, sh.E1.XCoordinate()...)
+
+		if sh.E1.IsIdentity() {
+			out = append(out, 1)
+		}
+
+		return out
+	}},
+	{"Element.Identity/Base/Negate/Double #api", func(sh *Shared) []byte {
+		e := own()
+		out := append([]byte{}, e.Identity().Encode()...)
+		out = append(out, e.Base().Negate().Double().Encode()...)
+
+		return out
+	}},
+	{"Scalar.DecodeHex/UnmarshalBinary(SB) #api", func(sh *Shared) []byte {
+		s, t := rawScalar(big.NewInt(9)), rawScalar(big.NewInt(9))
+		e1 := s.DecodeHex(hex.EncodeToString(sh.SB))
+		e2 := t.UnmarshalBinary(sh.SB)
+
+		return append(append(s.Encode(), t.Encode()...), errByte(e1), errByte(e2))
+	}},
+	{"S1.Hex/MarshalBinary/IsZero/IsOne #api", func(sh *Shared) []byte {
+		b, _ := sh.S1.MarshalBinary()
+		out := append([]byte(sh.S1.Hex()), b...)
+
+		if sh.S1.IsZero() || sh.S1.IsOne() {
+			out = append(out, 1)
+		}
+
+		return out
+	}},
+	{"Scalar.SetUInt64/Square/Zero/One/MinusOne #api", func(sh *Shared) []byte {
+		s := rawScalar(big.NewInt(9))
+		out := append([]byte{}, s.SetUInt64(0xfedcba9876543210).Square().Encode()...)
+		out = append(out, s.Zero().Encode()...)
+		out = append(out, s.One().Encode()...)
+		out = append(out, s.MinusOne().Encode()...)
+
+		return out
+	}},
+	{"HashToGroup(M,Dlong) #api", func(sh *Shared) []byte { return secp256k1.HashToGroup(sh.M, sh.DLong).Encode() }},
+	{"EncodeToGroup(M,Dlong) #api", func(sh *Shared) []byte { return secp256k1.EncodeToGroup(sh.M, sh.DLong).Encode() }},
+	{"SSWU+Isogeny+Polynomial #api", func(sh *Shared) []byte {
+		u := field.New().One()
+		u.Add(u, u)
+		p := secp256k1.IsogenySecp256k13iso(secp256k1.SSWU(u))
+		y := field.New()
+		secp256k1.Secp256Polynomial(y, u)
+		b := y.Bytes()
+
+		return append(p.Encode(), b[:]...)
+	}},
+	{"Order/Ciphersuite/lengths #api", func(sh *Shared) []byte {
+		out := append([]byte(secp256k1.Ciphersuite()), secp256k1.Order()...)
+		return append(out, byte(secp256k1.ElementLength()), byte(secp256k1.ScalarLength()))
+	}},
 }
 
 // takeAndOverwrite returns a copy of b and then inverts every byte of b over its full capacity.
